@@ -61,6 +61,11 @@ func verifyFunction(w *World, ss *SpecSet, fn *ssa.Function, spec *FuncSpec) (re
 		e.ctx.declare(e.nextRef0, sInt)
 		e.ctx.assume(lt("0", e.nextRef0))
 	}
+	for _, g := range ss.GhostVars {
+		env := &SpecEnv{ex: e, st: nil, vars: map[string]Val{}}
+		env.st = &State{pc: "true", heaps: map[string]string{}, ghost: map[string]Val{}, cells: map[*ssa.Alloc]Val{}, nextRef: e.nextRef0}
+		env.ghostVar(g)
+	}
 	st := &State{pc: "true", cells: map[*ssa.Alloc]Val{}, heaps: map[string]string{}, ghost: map[string]Val{}, nextRef: e.nextRef0}
 	e.entry = st.clone()
 	fr := e.newFrame(fn, spec, e.key)
